@@ -154,9 +154,18 @@ def negate(test):
     if isinstance(test, ast.Compare) and len(test.ops) == 1:
         flip = {ast.Eq: ast.NotEq, ast.NotEq: ast.Eq, ast.Is: ast.IsNot, ast.IsNot: ast.Is, ast.In: ast.NotIn, ast.NotIn: ast.In}
         t = flip.get(type(test.ops[0]))
+        if t is None and any(_is_intlike(x) for x in (test.left, test.comparators[0])):
+            # order comparisons are only flipped when one side is certainly an int (len(..) or an int literal): no NaN case
+            t = {ast.Lt: ast.GtE, ast.GtE: ast.Lt, ast.Gt: ast.LtE, ast.LtE: ast.Gt}.get(type(test.ops[0]))
         if t is not None:
             return ast.copy_location(ast.Compare(left=test.left, ops=[t()], comparators=test.comparators), test)
     return ast.copy_location(ast.UnaryOp(op=ast.Not(), operand=test), test)
+
+
+def _is_intlike(e):
+    if isinstance(e, ast.Constant) and isinstance(e.value, int) and not isinstance(e.value, bool):
+        return True
+    return isinstance(e, ast.Call) and isinstance(e.func, ast.Name) and e.func.id == "len" and len(e.args) == 1 and not e.keywords
 
 
 def _size(stmts):
@@ -401,7 +410,7 @@ class FuncCanon(object):
         changed = False
         for blk in _all_blocks(self.fn):
             top = blk is self.fn.body
-            if self.star(blk) or self.rot(blk) or self.brk(blk, top) or self.ifs(blk) or self.sink(blk) or self.unpack(blk) or self.fwd(blk):
+            if self.star(blk) or self.split(blk) or self.forelse(blk) or self.rot(blk) or self.brk(blk, top) or self.wtop(blk) or self.ifs(blk) or self.sink(blk) or self.unpack(blk) or self.fwd(blk):
                 return True
         return changed
 
@@ -485,6 +494,41 @@ class FuncCanon(object):
                             return True
         return False
 
+    # -- SPLIT -----------------------------------------------------------------------------------------------------
+    def split(self, blk):
+        """`a, b = x, y` -> `a = x; b = y` when no target is read by a later element (parallel == sequential)."""
+        for i, st in enumerate(blk):
+            if not (isinstance(st, ast.Assign) and len(st.targets) == 1 and isinstance(st.targets[0], ast.Tuple) and isinstance(st.value, ast.Tuple)):
+                continue
+            ts, vs = st.targets[0].elts, st.value.elts
+            if len(ts) != len(vs) or any(isinstance(x, ast.Starred) for x in ts + vs):
+                continue
+            if not all(isinstance(t, (ast.Name, ast.Attribute)) for t in ts):
+                continue
+            ok = True
+            for a in range(len(ts)):
+                tnames = {n.id for n in ast.walk(ts[a]) if isinstance(n, ast.Name)}
+                tattr = ts[a].attr if isinstance(ts[a], ast.Attribute) else None
+                for b in range(a + 1, len(vs)):
+                    for n in ast.walk(vs[b]):
+                        if isinstance(n, ast.Name) and isinstance(ts[a], ast.Name) and n.id in tnames:
+                            ok = False
+                        if tattr is not None and isinstance(n, ast.Attribute) and n.attr == tattr:
+                            ok = False
+                        if isinstance(n, (ast.Call, ast.Await)) and tattr is not None:
+                            ok = False
+            if not ok:
+                continue
+            new = []
+            for t, v in zip(ts, vs):
+                a_ = ast.Assign(targets=[t], value=v)
+                ast.copy_location(a_, st)
+                new.append(a_)
+            blk[i:i + 1] = new
+            self.bump("SPLIT")
+            return True
+        return False
+
     # -- SINK ------------------------------------------------------------------------------------------------------
     def sink(self, blk):
         for i, st in enumerate(blk[:-1]):
@@ -533,6 +577,32 @@ class FuncCanon(object):
             return True
         return False
 
+    # -- FORELSE ---------------------------------------------------------------------------------------------------
+    def forelse(self, blk):
+        """`for ..: .. break .. else: E` ; R   ->   `for ..: .. R .. ` ; E ; R     when R (small, call-free) always leaves
+        the function and the loop has one break; without any break the else-block simply follows the loop."""
+        for i, lp in enumerate(blk):
+            if not (isinstance(lp, (ast.For, ast.AsyncFor, ast.While)) and lp.orelse):
+                continue
+            sites = _own_breaks(lp.body)
+            if not sites:
+                blk[i + 1:i + 1] = lp.orelse
+                lp.orelse = []
+                self.bump("FORELSE")
+                return True
+            rest = blk[i + 1:]
+            if len(sites) != 1 or sites[0][0] is None or not always_leaves_function(rest) or _size(rest) > 2:
+                continue
+            if any(_has_call_other_than_pure(s) for s in rest):
+                continue
+            owner, idx = sites[0]
+            owner[idx:idx + 1] = copy.deepcopy(rest)
+            blk[i + 1:i + 1] = lp.orelse
+            lp.orelse = []
+            self.bump("FORELSE")
+            return True
+        return False
+
     # -- BRK -------------------------------------------------------------------------------------------------------
     def brk(self, blk, top):
         for i, lp in enumerate(blk):
@@ -558,6 +628,39 @@ class FuncCanon(object):
             owner[idx:idx + 1] = tail
             del blk[i + 1:]
             self.bump("BRK")
+            return True
+        return False
+
+    # -- WTOP ------------------------------------------------------------------------------------------------------
+    def wtop(self, blk):
+        """`while True: if c: E; B`  ->  `while not c: B` ; E      when the `if` at the top of the body is the only way out of
+        the loop (E ends in the loop's only break, or leaves the function, and B has no break)."""
+        for i, lp in enumerate(blk):
+            if not (isinstance(lp, ast.While) and not lp.orelse and _is_const_true(lp.test) and len(lp.body) >= 2):
+                continue
+            top = lp.body[0]
+            if not (isinstance(top, ast.If) and not top.orelse and top.body):
+                continue
+            rest_body = lp.body[1:]
+            if _own_breaks(rest_body):
+                continue
+            inner = _own_breaks(top.body)
+            if any(o is None for o, _ in inner):
+                continue
+            if len(inner) == 1 and inner[0][0] is top.body and inner[0][1] == len(top.body) - 1:
+                tail = top.body[:-1]
+            elif not inner and always_leaves_function(top.body):
+                tail = top.body
+            else:
+                continue
+            if _contains_own(tail, ast.Continue):
+                continue
+            if any(isinstance(n, ast.Yield) for st in [top.test] for n in ast.walk(st)):
+                continue
+            lp.test = negate(top.test)
+            lp.body = rest_body
+            blk[i + 1:i + 1] = tail
+            self.bump("WTOP")
             return True
         return False
 
